@@ -9,11 +9,16 @@ FUEL == 3000
 Bad(what) == Print(<<"TRACE-REJECT", l, what>>, TRUE)
 IsNone(x) == x.k = "none"
 \* every recorded step is the specification's step (same reduction strategy, same result)
-RECURSIVE StepsOK(_,_,_)
-StepsOK(cur, steps, j) ==
+\* An implementation step without a counterpart: where the source had a hole, the elaborated term still holds the (solved) hole
+\* cell, and the evaluator spends one step replacing it by its solution.  Terms are recorded with solutions filled in, so that
+\* step is invisible: a stuttering step, admitted only for programs whose source had holes.
+RECURSIVE StepsOK(_,_,_,_)
+StepsOK(cur, steps, j, stutter) ==
   IF j > Len(steps) THEN [ok |-> TRUE, cur |-> cur] ELSE
   LET s == Step(cur) IN
-  IF s.r = "step" /\ Ident(s.t, steps[j]) THEN StepsOK(steps[j], steps, j + 1) ELSE [ok |-> FALSE, at |-> j, cur |-> cur]
+  IF s.r = "step" /\ Ident(s.t, steps[j]) THEN StepsOK(steps[j], steps, j + 1, stutter)
+  ELSE IF stutter /\ Ident(cur, steps[j]) THEN StepsOK(cur, steps, j + 1, stutter)
+  ELSE [ok |-> FALSE, at |-> j, cur |-> cur]
 Accepted(e) ==
   LET i == Infer(e.elab, <<>>, FUEL)
       src == IF IsNone(e.src) THEN e.gen ELSE e.src
@@ -24,7 +29,7 @@ Accepted(e) ==
   /\ IF HasHole(e.elab) THEN Bad(<<"C01", "accepted with an unfilled hole", "holes_opened", e.holes_opened>>) ELSE TRUE
   \* the clauses below are judged independently: one observation may break several statements (a wrong step that ends stuck is
   \* a C02 and a C01 observation), and every check filters by its own tag
-  /\ LET so == IF Len(e.steps) > 0 THEN StepsOK(e.elab, e.steps, 1) ELSE [ok |-> TRUE, cur |-> e.end] IN
+  /\ LET so == IF Len(e.steps) > 0 THEN StepsOK(e.elab, e.steps, 1, ~IsNone(src) /\ HasHole(src)) ELSE [ok |-> TRUE, cur |-> e.end] IN
      IF ~so.ok THEN Bad(<<"C02", "evaluation step differs from the semantics", so.at>>)
      ELSE IF e.endk # "fuel" /\ Len(e.steps) = 0 /\ e.nsteps > 0 /\ e.nsteps <= 400 /\ ~Ident(StepN(e.elab, e.nsteps), e.end) THEN Bad(<<"C02", "final term differs from the semantics">>)
      ELSE TRUE
